@@ -4,6 +4,7 @@ CONSTANTS
   Sizes <- SAll
   Opts <- OPlain
   FlushOnWait = TRUE  FlushBeforeDirect = TRUE  ResetSlot = TRUE
+  Stall = FALSE  TimeoutSticky = TRUE
 SPECIFICATION ScriptSpec
-INVARIANTS TypeOK WholeInOrderOnePerQuery ReplyOptIsOwn SlotIsZeroBetweenRequests NothingHeldWhileBlocked ClassFits TokenConservation ClosedIsClean
+INVARIANTS TypeOK WholeInOrderOnePerQuery StreamEndsAtFailedWrite ReplyOptIsOwn SlotIsZeroBetweenRequests NothingHeldWhileBlocked ClassFits TokenConservation ClosedIsClean
 CHECK_DEADLOCK FALSE
